@@ -125,7 +125,11 @@ def cases(tier, seed):
                 for flips in itertools.product((0, 1), repeat=4):
                     edges = [list(es[i][::-1] if flips[k] else es[i]) for k, i in enumerate(order)]
                     yield dict(env='free', f=f, pts=pts, edges=edges, segsets=[[2, 1, 3, 2]])
-        # two perturbed ends at one 3-junction: |AC|,|BC| < tol < |AB|
+    if True:
+        P, f, lam = geom.lattice(seed, ground=False)
+        pts = [list(map(float, p)) for p in P]
+        # two perturbed ends at one 3-junction: |AC|,|BC| < tol < |AB| (quick: the first star only, all listing orders)
+        nstar = 0
         for es in geom.edge_sets(5, 3, dmin=3):
             deg = {}
             for e in es:
@@ -134,6 +138,9 @@ def cases(tier, seed):
             hub = [v for v, d in deg.items() if d == 3]
             if not hub:
                 continue
+            nstar += 1
+            if tier == 'quick' and nstar > 1:
+                break
             for order in itertools.permutations(range(3)):
                 edges = [list(es[i]) for i in order]
                 yield dict(env='free', f=f, pts=pts, edges=edges, segsets=[[2, 2, 2]],
